@@ -46,7 +46,9 @@ def gen(rng, tier, dist):
         # handed to load_from_file): every line of the file waits for the line of /on
         opts["p_self0"] = 0.9 if c % 4 == 1 else 0.0
         # every 6th application: a table whose leaves form one long dependency chain
-        opts["p_chain"] = 0.9 if c % 6 == 2 else 0.0
+        # leaves whose names extend a sibling's name (whole-name comparisons in scan_deps)
+        opts["p_prefix_name"] = 0.5 if c % 4 == 3 else 0.0
+        opts["p_chain"] = 0.9 if c % 3 == 2 else 0.0
         app = sc.static_app() if static else sc.gen_app(rng, opts)
         ref = sc.Ref(app)
         if not ref.flat:
@@ -54,7 +56,7 @@ def gen(rng, tier, dist):
         if static:
             dist["macro-made application"] = dist.get("macro-made application", 0) + 1
         tree, flat, apro = app.tree(), sc.flat_text(ref.flat), sc.apro_text(app, ref.flat, ref.dirs)
-        nops = rng.choice([3, 4, 5, 6, 8, 12])
+        nops = rng.choice([3, 4, 5, 6, 8, 12]) if not opts["p_chain"] else rng.choice([8, 12, 16])
         # files with a dependency among their lines: every third application, and all those with a switch inside
         # the directory it governs (rSelf / "name/toggle")
         ops, mops = sc.gen_ops(rng, ref, nops, focus=(c % 3 == 0 or opts["p_self"] > 0 or opts["p_inner"] > 0 or opts["p_self0"] > 0))
@@ -138,7 +140,7 @@ def gen(rng, tier, dist):
                         if hp in idx_of and idx_of[hp] in drop:
                             drop.add(j)
                             changed = True
-            if line_ix[dI] in drop or line_ix[aI] in drop or len(drop) < 3:
+            if line_ix[dI] in drop or line_ix[aI] in drop or len(mid) < 3:
                 continue
             keep = [j for j in full if j not in drop]
             groups.append(perms_of(keep, 8))
